@@ -36,7 +36,7 @@ def phased_case(rng, seq, nops):
     return Case('hist DEX 0 ' + ';'.join(g.ops), {'tags': sorted(g.tags) + ['phases:' + '>'.join(done)], 'phases': done})
 
 DOC_A = '{"a":[1,2,{"b":null}],"s":"some text that is long enough to make the print buffer of the formatted printer grow at least once: ' + 'x' * 200 + '","n":1.5}'
-DOC_B = '{"a":[1,3],"s":"other","z":true}'
+DOC_B = '{"a":[1,3],"s":"other","z":true,"big":' + '1' * 70 + ',"bad":[' + '9' * 64 + '.5e3]}'
 
 def external_script(cfgs, fail=None):
     ops = ['hooks:' + c for c in cfgs]
